@@ -142,6 +142,42 @@ def run(chk):
                          cs.raw("cp3 %d %s %s" % (slot, xyz, pt), "let () = out_str \"skip\"", {"kind": "cp3", "world": wj, "props": ps, "pos": pos, "depth": d,
                                                                                               "note": "sibling requests in sequence: " + json.dumps(sibs)})))
         cs.raw("cfree %d" % slot, "let () = out_str \"skip\"", {"kind": "free"})
+    # two handles on the same file with the same seed, alive at the same time, the second one created with an output directory:
+    # each is a world of its own (its own random stream, its own declaration files), exactly like two native World objects
+    for wi in range(3 if quick else 20):
+        rng.seed("%d/c16-2/%d" % (chk.seed, wi))
+        sph = wi % 2 == 1
+        big = [[-1e7, -1e7], [1e7, -1e7], [1e7, 1e7], [-1e7, 1e7]] if not sph else [[-170, -80], [170, -80], [170, 80], [-170, 80]]
+        wj = {"version": "1.1", "features": [{"model": "continental plate", "name": "twin", "coordinates": big, "max depth": 4e5,
+                                               "composition models": [{"model": "random", "compositions": [0], "min value": [0.0], "max value": [1.0]}],
+                                               "grains models": [{"model": "random uniform distribution", "compositions": [0], "grain sizes": [-1], "normalize grain sizes": [True]}]}]}
+        if sph:
+            wj["coordinate system"] = {"model": "spherical", "depth method": "begin segment"}
+        slot = cs.add_world(wj, model=False)
+        path = os.path.join(cs.dir, "w%d.wb" % slot)
+        seed = [7, 0, 12345][wi % 3]
+        od = os.path.join(base, "twin%d" % wi) + "/"
+        os.makedirs(od)
+        s1, s2 = 200000 + 2 * wi, 200001 + 2 * wi
+        cs.raw("nworld %d %s 0 null %d" % (s1, path, seed), "let () = out_str \"skip\"", {"kind": "create", "world": wj})
+        cs.raw("nworld %d %s 0 null %d" % (s2, path, seed), "let () = out_str \"skip\"", {"kind": "create", "world": wj})
+        cs.raw("cworld %d %s 0 null %d" % (s1, path, seed), "let () = out_str \"skip\"", {"kind": "create_world", "world": wj, "seed": seed})
+        i1 = cs.raw("cworld %d %s 1 %s %d" % (s2, path, od, seed), "let () = out_str \"skip\"",
+                    {"kind": "create_world", "has_output_dir": "1", "output_dir": od, "seed": seed, "world": wj,
+                     "note": "second handle on the same file and seed while the first is alive"})
+        dirs.append((od, "dir", i1, wj, seed))
+        for qi in range(6):
+            pos, d = query3d(rng, wj, sph)
+            xyz = "%s %s %s %s" % (fhex(pos[0]), fhex(pos[1]), fhex(pos[2]), fhex(d))
+            ps = [[2, 0, 0], [3, 0, 2], [1, 0, 0]]
+            pt = props_tok(ps)
+            for sl in ((s1, s2, s2) if qi % 2 == 0 else (s2, s1)):
+                a = cs.raw("p3 %d %s %s" % (sl, xyz, pt), "let () = out_str \"skip\"", {"kind": "p3", "world": wj, "props": ps, "pos": pos, "depth": d})
+                b = cs.raw("cp3 %d %s %s" % (sl, xyz, pt), "let () = out_str \"skip\"", {"kind": "cp3", "world": wj, "props": ps, "pos": pos, "depth": d,
+                                                                                        "note": "two handles on one file and seed, queried in turn"})
+                plan.append(("eq", a, b))
+        cs.raw("cfree %d" % s1, "let () = out_str \"skip\"", {"kind": "free"})
+        cs.raw("cfree %d" % s2, "let () = out_str \"skip\"", {"kind": "free"})
     # run in a scratch working directory: a wrongly marshalled output directory then writes there, not into /verif
     cwd = os.path.join(base, "cwd")
     os.makedirs(cwd)
